@@ -1077,6 +1077,31 @@ func (ex *Exec) lookupLocalAt(fr *frame, name string, at *ssa.BasicBlock, st *St
 			}
 		}
 	}
+	if at != nil {
+		// a phi of an enclosing loop header (closest dominating block)
+		var bestPhi *ssa.Phi
+		for _, b := range fn.Blocks {
+			if b == at || !b.Dominates(at) {
+				continue
+			}
+			for _, in := range b.Instrs {
+				phi, ok := in.(*ssa.Phi)
+				if !ok {
+					break
+				}
+				if phi.Comment == name {
+					if _, have := fr.env[phi]; have {
+						if bestPhi == nil || bestPhi.Block().Dominates(b) {
+							bestPhi = phi
+						}
+					}
+				}
+			}
+		}
+		if bestPhi != nil && (name == "rangeindex" || name == "rangeiter") {
+			return fr.env[bestPhi], bestPhi.Type(), true
+		}
+	}
 	// debug refs
 	var best *ssa.DebugRef
 	for _, b := range fn.Blocks {
